@@ -18,7 +18,7 @@ static void build(const Args &a, std::vector<Case> &out) {
   size_t shard = (size_t)a.num("shard", 0), nshards = (size_t)a.num("nshards", 1), idx = 0; // only this shard's cases are materialised
   std::string mode = a.str("mode", "c01");
   bool thorough = a.str("tier", "quick") == "thorough";
-  int nkeys = thorough ? 3 : 2, nseeds = (mode == "c02") ? (thorough ? fo::NSEEDS : 3) : (thorough ? 3 : 2), ncont = thorough ? 4 : 2;
+  int nkeys = thorough ? 3 : 2, nseeds = (mode == "c02") ? (thorough ? fo::NSEEDS : 5) : (thorough ? 3 : 2), ncont = thorough ? 4 : 2;
   if (a.num("prod", 0)) { // production constants (16 MiB chunks): the boundary lengths of one and two real chunks, default T=4 and T=1
     for (int T : {4, 1})
       for (size_t n : {S - 17, S - 16, S - 1, S, S + 1, 2 * S - 16, 2 * S + 3, 4 * S - 16, 4 * S + 3})
@@ -45,12 +45,13 @@ static void build(const Args &a, std::vector<Case> &out) {
           // alphabets: the full product for the base member, single deviations for the others
           for (int k = 0; k < nkeys; k++)
             for (int sd = 0; sd < nseeds; sd++)
-              for (int ct = 0; ct < ncont; ct++) {
-                if ((k != 0) + (sd != 0) + (ct != 0) > 1) continue;
-                if ((k || sd || ct) && !allh && (n % 5)) continue; // deviations on every 5th length for the other T
+              for (int ct = 0; ct < ncont; ct++)
+              for (int sh = 0; sh < (rr ? 1 : 3); sh++) { // size hint given to execute_*: exact / 0 ("unknown") / too large
+                if ((k != 0) + (sd != 0) + (ct != 0) + (sh != 0) > 1) continue;
+                if ((k || sd || ct || sh) && !allh && (n % 5)) continue; // deviations on every 5th length for the other T
                 if (idx++ % nshards != shard) continue;
                 Case c;
-                c.set("T", T).set("n", (long)n).set("cm", cm).set("hm", hm).set("k", k).set("sd", sd).set("ct", ct);
+                c.set("T", T).set("n", (long)n).set("cm", cm).set("hm", hm).set("k", k).set("sd", (!thorough && mode == "c02" && sd >= 3) ? (sd == 3 ? 7 : 9) : sd).set("ct", ct).set("sh", sh);
                 c.cls = std::string(rr ? "rr," : "") + "T=" + std::to_string(T) + ",cm=" + std::to_string(cm) + ",hm=" + std::to_string(hm) + "," + lenclass(n, T);
                 out.push_back(c);
               }
@@ -59,7 +60,11 @@ static void build(const Args &a, std::vector<Case> &out) {
   g_total_cases = idx;
 }
 
-static std::string run_c01(const Case &c) {
+static std::string run_c01_(const Case &c);
+static std::string run_c02_(const Case &c);
+static std::string run_c01(const Case &c) { fo::g_size_hint = (int)c.num("sh", 0); std::string r = run_c01_(c); fo::g_size_hint = 0; return r.empty() || !c.num("sh", 0) ? r : r + " (size argument " + (c.num("sh") == 1 ? "0" : "too large") + ")"; }
+static std::string run_c02(const Case &c) { fo::g_size_hint = (int)c.num("sh", 0); std::string r = run_c02_(c); fo::g_size_hint = 0; return r.empty() || !c.num("sh", 0) ? r : r + " (size argument " + (c.num("sh") == 1 ? "0" : "too large") + ")"; }
+static std::string run_c01_(const Case &c) {
   int T = (int)c.num("T"), cm = (int)c.num("cm"), hm = (int)c.num("hm");
   size_t n = (size_t)c.num("n");
   static const int CT[4] = {0, 3, 1, 2}; // position-dependent, padding-like (every block ends in 0x10/0x01), zeros, FF
@@ -73,7 +78,7 @@ static std::string run_c01(const Case &c) {
   if (d.out != P) return "content-differs|decrypted bytes differ from the plaintext";
   return "";
 }
-static std::string run_c02(const Case &c) {
+static std::string run_c02_(const Case &c) {
   int T = (int)c.num("T"), cm = (int)c.num("cm"), hm = (int)c.num("hm");
   size_t n = (size_t)c.num("n");
   static const int CT[4] = {0, 3, 1, 2}; // position-dependent, padding-like (every block ends in 0x10/0x01), zeros, FF
